@@ -521,3 +521,118 @@ Print Assumptions C06_own_error_is_the_collectors.
 Print Assumptions C06_collector_error_reproduced.
 Print Assumptions C06_prefix_closing2_ws_partial.
 Print Assumptions C06_follow_extension_partial.
+
+(** * An unmatched OPENING delimiter over the extended grammar, tolerant mode (proofs in
+    [Proofs/Prefix2Open.v])
+
+    The tolerant counterpart of [C05_fault_opening2_partial] (top level): the text
+    [l1 fws OPEN l2 dtr] — items, whitespace, an opening delimiter that is never closed, items,
+    trailing whitespace — which strict mode rejects with error 6 raised at the end of the
+    input.  Tolerant mode returns EXACTLY: the nodes of the items [l1] in front of the
+    delimiter (the collector state [absorb] reaches on them, the whitespace [fws] flushed into
+    it), then ONE node for the unclosed construct, spanning to the end of the input, whose body
+    is the tree of the rest [l2 ++ dtr] — the valid prefix is kept, and so is everything that
+    was collected inside the unclosed construct.
+
+    PARTIAL: (1) the delimiter is [{] or a math delimiter ([$], [\(], [\[], [$$]), not
+    [\begin{name}]; (2) the body [l2] is a list of EXTENDED items (environments, specials,
+    optional / star / single-token / verbatim arguments, ...), but the items [l1] IN FRONT of
+    the delimiter are items of the CORE grammar ([Doc/DocGrammar.v]: text, groups, macro calls
+    with braced arguments, formulas, comments, paragraph breaks; side conditions against the
+    first character that follows): the tolerant-mode simulation of a collector whose run ends
+    in a recovered error exists for the core grammar only ([Proofs/PrefixSim.v]); the lockstep
+    argument behind [C06_prefix_closing2_partial] needs a strict error that carries the
+    collector's nodes, which the error of a nested unclosed construct does not; (3) top level
+    only. *)
+From PLV Require Import Proofs.Fault2Open Proofs.Prefix2Open.
+
+Theorem C06_prefix_opening2_partial : forall cx (l1 : list item) fws l2 dtr,
+  let ps0 := walker_state cx in
+  ok_items cx ps0 l1 (hd_error (fws ++ 123%N :: unparse_items2 l2 ++ dtr)) = true -> ws_ok fws = true ->
+  ok_items2 cx ps0 [] l2 dtr = true -> ws_ok dtr = true ->
+  let s := unparse_items l1 ++ fws ++ 123%N :: unparse_items2 l2 ++ dtr in
+  let pb := length (unparse_items l1) in
+  let p0 := (pb + length fws)%nat in
+  let A := fst (absorb cx ps0 0 cs_empty l1) in
+  let B := absorb2 cx ps0 (S p0) cs_empty l2 in
+  let body := gen_nodelist (S p0) (cs_acc (eos_state ps0 (fst B) dtr (snd B))) in
+  parse_top s true cx ps0
+  = Ok (ONode (Some (gen_nodelist 0
+         (cs_acc (push_node (pre_flush ps0 A fws pb)
+                            (Some (NGroup p0 (length s) (ps_mode ps0) [123%N] [125%N] (Some body))))))))
+       (length s).
+Proof. exact prefix_opening2_brace. Qed.
+
+Theorem C06_prefix_opening2_math_partial : forall cx (l1 : list item) fws k l2 dtr,
+  let ps0 := walker_state cx in
+  let mps := ps_enter_math ps0 (Some (m_open k)) in
+  ok_items cx ps0 l1 (hd_error (fws ++ m_open k ++ unparse_items2 l2 ++ dtr)) = true ->
+  open_side2 cx ps0 [] fws (OMath2 k) (unparse_items2 l2 ++ dtr) = true ->
+  ok_items2 cx mps [] l2 dtr = true -> ws_ok dtr = true ->
+  let s := unparse_items l1 ++ fws ++ m_open k ++ unparse_items2 l2 ++ dtr in
+  let pb := length (unparse_items l1) in
+  let p0 := (pb + length fws)%nat in
+  let pm := (p0 + length (m_open k))%nat in
+  let A := fst (absorb cx ps0 0 cs_empty l1) in
+  let B := absorb2 cx mps pm cs_empty l2 in
+  let body := gen_nodelist pm (cs_acc (eos_state mps (fst B) dtr (snd B))) in
+  parse_top s true cx ps0
+  = Ok (ONode (Some (gen_nodelist 0
+         (cs_acc (push_node (pre_flush ps0 A fws pb)
+                            (Some (NMath p0 (length s) (ps_mode ps0) (m_display k) (m_open k) (m_close k) (Some body))))))))
+       (length s).
+Proof. exact prefix_opening2_math. Qed.
+
+(** the nodes in front of the unclosed construct are exactly those of [l1] (and [fws]) *)
+Theorem C06_prefix_opening2_keeps_prefix : forall ps st ws p nd,
+  cs_acc (push_node (pre_flush ps st ws p) nd) = cs_acc (pre_flush ps st ws p) ++ [nd].
+Proof. reflexivity. Qed.
+
+(** non-vacuity: [a {b}] (core items: a text run, a group) + a blank + the delimiter +
+    [ \sqrt{z}\begin{center}c\end{center}] (extended items: an absent optional argument, an
+    environment) + a blank.  Strict mode rejects the text (error 6 at the end of the input);
+    tolerant mode returns four nodes: [a ], the group, the blank, and the unclosed construct
+    (offsets 6 to 44, the end of the input) with its body of four nodes; the same with each of the
+    four math delimiters in front of [ x~y] *)
+Example C06_prefix_opening2_nonvacuous :
+  let cx := default_ctx in let ps0 := walker_state cx in
+  let l1 := [Text [] [97]; Grp [32] [Text [] [98]] []] in
+  let l2 := [Mac2 [32] [115;113;114;116] [] [Abs2; Grp2 [] [Text2 [] [122]] []];
+             Env2 [] [] [99;101;110;116;101;114] [] [Text2 [] [99]] [] []] in
+  let s := unparse_items l1 ++ [32] ++ 123%N :: unparse_items2 l2 ++ [32] in
+  ok_items cx ps0 l1 (hd_error ([32] ++ 123%N :: unparse_items2 l2 ++ [32])) = true /\
+  ok_items2 cx ps0 [] l2 [32] = true /\
+  is_perr (parse_top s false cx ps0) = true /\
+  length s = 44%nat /\
+  match parse_top s true cx ps0 with
+  | Ok (ONode (Some (NList _ _ items))) p =>
+      p = 44%nat /\ length items = 4%nat /\
+      firstn 3 items = cs_acc (pre_flush ps0 (fst (absorb cx ps0 0 cs_empty l1)) [32] 5) /\
+      match nth 3 items None with
+      | Some (NGroup 6 44 _ _ _ (Some (NList _ _ b))) => length b = 4%nat
+      | _ => False
+      end
+  | _ => False
+  end /\
+  forallb (fun k =>
+    let mps := ps_enter_math ps0 (Some (m_open k)) in
+    let l2m := [Text2 [32] [120]; Spc2 [] [126] []; Text2 [] [121]] in
+    let sm := unparse_items l1 ++ [32] ++ m_open k ++ unparse_items2 l2m ++ [32] in
+    ok_items cx ps0 l1 (hd_error ([32] ++ m_open k ++ unparse_items2 l2m ++ [32])) &&
+    open_side2 cx ps0 [] [32] (OMath2 k) (unparse_items2 l2m ++ [32]) &&
+    ok_items2 cx mps [] l2m [32] &&
+    is_perr (parse_top sm false cx ps0) &&
+    match parse_top sm true cx ps0 with
+    | Ok (ONode (Some (NList _ _ items))) p =>
+        Nat.eqb p (length sm) && Nat.eqb (length items) 4
+        && match nth 3 items None with
+           | Some (NMath 6 e _ _ _ _ (Some (NList _ _ b))) => Nat.eqb e (length sm) && Nat.eqb (length b) 3
+           | _ => false
+           end
+    | _ => false
+    end) [MDollar; MParen; MBracket; MDollars] = true.
+Proof. vm_compute. repeat split. Qed.
+
+Print Assumptions C06_prefix_opening2_partial.
+Print Assumptions C06_prefix_opening2_math_partial.
+Print Assumptions C06_prefix_opening2_keeps_prefix.
